@@ -284,7 +284,7 @@ def _rand_prog(rng, lens, depth, fmt):
     if r > 0.94:
         # read (cache) some columns of the lazy table, then go on with the same table
         p = _rand_prog(rng, lens, depth - 1, fmt)
-        return {"get": p, "fs": sorted(rng.sample(range(FORMATS[fmt][2]), rng.choice([1, 1, 2])))}
+        return {"get": p, "fs": sorted(rng.sample(_readable(fmt), rng.choice([1, 1, 2])))}
     if r > 0.88:
         # write a child of a (shared) table first, then go on with a program over the same tables
         k = rng.randrange(len(lens))
@@ -351,6 +351,15 @@ def make_case(rng, fmt, depth, replace_p=0.3, eol=None):
         ks = sorted(rng.sample(sorted(rep), rng.choice([1, 1, 2, min(3, len(rep)), len(rep)])))
         c["repl"] = [[k, rep[k], _new_values(rng, rep[k], n)] for k in ks]
     return _set_op(c)
+
+
+def _readable(fmt):
+    """entry-type fields whose generated text always parses (scores like '1e3' or '.' are valid text but not valid integers)"""
+    if fmt == "bam":
+        return list(range(9))
+    if fmt == "gtf":
+        return [0, 3, 4, 8]
+    return sorted(FORMATS[fmt][3])
 
 
 def _equal_size_case(rng, fmt, eol, n):
@@ -503,9 +512,9 @@ def cases(tier, rng):
                     if rep and nm:
                         k = rng.choice(sorted(rep))
                         yield _set_op(dict(base, prog={"seq": [side, m]}, repl=[[k, rep[k], _new_values(rng, rep[k], nm)]]))
-            nf = FORMATS[fmt][2]
+            rd = _readable(fmt)
             if fmt != "bam":
-                for fs in ([1 % nf], [0], list(range(nf))[:3], [nf - 1]):
+                for fs in ([rd[1 % len(rd)]], [rd[0]], rd[:3], [rd[-1]]):
                     g0 = {"get": d0, "fs": fs}
                     yield _set_op(dict(base, prog={"cat": [{"sel": g0, "ix": {"mask": [i % 3 != 1 for i in range(n0)]}}, g0]}))
                     yield _set_op(dict(base, prog={"cat": [d0, {"get": {"sel": d0, "ix": {"slice": [1, 4, 1]}}, "fs": fs}]}))
